@@ -86,6 +86,9 @@ def specs(draw, tier):
         spec["t_on_value"] = draw(st.booleans())
     spec["a"] = draw(st.sampled_from([0.25, 0.5, 2.0, 4.0, 8.0]))
     spec["b"] = draw(st.integers(-40, 40)) / 4
+    if draw(st.integers(0, 5)) == 2:
+        # a background far larger than the contrast (powers of two: the mapped values stay exactly representable)
+        spec["b"] = float(draw(st.sampled_from([-1, 1])) * draw(st.sampled_from([2**20, 2**22, 3 * 2**21, 2**24])))
     spec["minrad"] = draw(st.sampled_from(["-inf", "zero", "q25", "q50", "q90", "exact", "exact", "huge"]))
     spec["minrad_pick"] = draw(st.integers(0, 100))
     return spec
@@ -169,6 +172,8 @@ class C18(Property):
         rule = spec["threshold"]
         lo, hi = float(data.min()), float(data.max())
         ctx.cls(spec["grid"]["family"], f"rule:{rule}", f"field:{spec['field']['kind']}")
+        if abs(spec["b"]) > 1e5:
+            ctx.cls("large-background")
         a, b = spec["a"], spec["b"]
         data2 = a * data + b
         otsu_ok = True
@@ -180,6 +185,9 @@ class C18(Property):
             t2 = math.fsum(data2.ravel().tolist()) / data2.size
             if np.any(np.abs(data - t) <= 4 * np.spacing(abs(t) + 1e-300)) and not np.any(data == t):
                 ctx.skip("mean-knife-edge")
+                return
+            if abs(b) > 1e5 and np.any(np.abs(data2 - t2) <= 64 * np.spacing(abs(t2))):
+                ctx.skip("mean-knife-edge")  # the mean of values around 2^24 is only known to a few ulp
                 return
         elif rule == "otsu":
             if lo == hi:
@@ -217,7 +225,9 @@ class C18(Property):
             k = int(k[0])
             if not ctx.require(k < len(fin) and fin[k] >= best * (1 - 1e-9), "otsu:not-maximal", f"threshold_otsu={got} (bin {k}) has between-class variance {fin[k] if k < len(fin) else None} < max {best}"):
                 return
-            top = np.flatnonzero(fin >= best * (1 - 1e-9))
+            # (with a background of 2^20 ... 2^24 the class means of the mapped image carry a relative rounding of ~1e-9, which moves
+            # near-ties: splits within 1e-6 of the best score must then all give the same mask)
+            top = np.flatnonzero(fin >= best * (1 - (1e-6 if abs(b) > 1e5 else 1e-9)))
             masks = {(data > centres[i]).tobytes() for i in top}
             otsu_ok = len(masks) == 1
             if not otsu_ok:
